@@ -2080,3 +2080,10 @@ package exec
 //@     invariant nlHas(n, "http://www.w3.org/XML/1998/namespace", "lang") == nlHas(langStart(nodeSet[0]), "http://www.w3.org/XML/1998/namespace", "lang")
 //@     invariant nlVal(n, "http://www.w3.org/XML/1998/namespace", "lang") == nlVal(langStart(nodeSet[0]), "http://www.w3.org/XML/1998/namespace", "lang")
 //@     decreases pos(n)
+
+//@ func boolean(context, args) (r, err)
+//@   property C04 C13 C15
+//@   uses values
+//@   requires okargs(args)
+//@   ensures (err != nil) == (len(args) != 1)
+//@   ensures err == nil ==> r == VBool(toBool(args[0]))                       @boolean-of-the-argument
